@@ -242,6 +242,18 @@ static void op_fullcase(const V &a, V &r) {
     if (mask & 2) { tfhe_bootstrap_woKS(u, bk, mu, x); r.push_back(lwePhase(u, cur.xkey)); }
     if (mask & 4) { tfhe_bootstrap_FFT(res, bf, mu, x); r.push_back(lwePhase(res, cur.sk->lwe_key)); }
     if (mask & 8) { tfhe_bootstrap(res, bk, mu, x); r.push_back(lwePhase(res, cur.sk->lwe_key)); }
+    if (mask & 16) {   // a stand-alone FFT key: its source LweBootstrappingKey is re-keyed with other secrets and deleted before use
+        LweBootstrappingKey *bk2 = new_LweBootstrappingKey(P->ks_t, P->ks_basebit, P->in_out_params, P->tgsw_params);
+        tfhe_createLweBootstrappingKey(bk2, cur.sk->lwe_key, cur.sk->tgsw_key);
+        LweBootstrappingKeyFFT *bf2 = new_LweBootstrappingKeyFFT(bk2);
+        { LweKey *ok = new_LweKey(P->in_out_params); TGswKey *og = new_TGswKey(P->tgsw_params); lweKeyGen(ok); tGswKeyGen(og);
+          tfhe_createLweBootstrappingKey(bk2, ok, og); delete_TGswKey(og); delete_LweKey(ok); }
+        delete_LweBootstrappingKey(bk2);
+        { std::vector<char *> junk; for (int q = 0; q < 64; q++) { char *m = (char *) malloc(1 << (6 + q % 12)); memset(m, 0x5A, 1 << (6 + q % 12)); junk.push_back(m); } for (char *m : junk) free(m); }
+        tfhe_bootstrap_woKS_FFT(u, bf2, mu, x); r.push_back(lwePhase(u, cur.xkey));
+        tfhe_bootstrap_FFT(res, bf2, mu, x); r.push_back(lwePhase(res, cur.sk->lwe_key));
+        delete_LweBootstrappingKeyFFT(bf2);
+    }
     bool same = x->b == (int32_t) v[2 + n]; for (int i = 0; i < n; i++) if (x->a[i] != snap[i]) same = false;
     r.push_back(same ? 1 : 0);
     delete_LweSample(res); delete_LweSample(u); delete_LweSample(x);
